@@ -1,6 +1,8 @@
 import Lemmas.FixedConv
 import Lemmas.FixedRat
 import Lemmas.FixedFloatConv
+import Lemmas.FixedFloat32From
+import Lemmas.FixedContrast
 /-! # C03 — fixed-point arithmetic equals exact decimal arithmetic truncated toward zero
 
 Property theorems only.  The executable model is `Model/Fixed.lean` (`Fixed.F64.*` = `f64.Int[T]` on wrapping `int64`
@@ -15,7 +17,7 @@ configuration, so every clause is stated on the raw scaled integers:
 driver takes it, `driver_multiplier_from_table`).  `fits64` / `fits128` are the explicit representability hypotheses of
 the property (exact result and, for Mul/Div/Mod, the intermediate product). -/
 namespace C03
-open Fixed Fixed.Spec Fixed.Rat Fixed.FloatLemmas
+open Fixed Fixed.Spec Fixed.Rat Fixed.FloatLemmas Fixed.Contrast
 
 /-! ## configurations -/
 
@@ -289,6 +291,96 @@ theorem f128_fraction_value (m n d : Int) (hm : Mult m) (hn : fits128 (-(n * m))
     · simp only [hneg, if_false]
       rw [F128.div_eq hdf h0 hp hq]; rfl
 
+/-! ## Fraction text (`NewFraction`, `String`, `StringWithSign`; run by the driver as ops `fnew`, `fstr`, `fjson`) -/
+
+/-- the text of a whole number (`Int.String()` on raw `v·m`, as used by `Fraction.String`) is the integer without a
+    fraction part; `StringWithSign` prefixes `+` exactly for the non-negative ones -/
+theorem render_whole (m v : Int) (hm : 0 < m) : render m (v * m) = toString v ∧
+    renderSign m (v * m) = if 0 ≤ v then "+" ++ toString v else toString v := by
+  have e1 : (v * m).tdiv m = v := Int.mul_tdiv_cancel _ (by omega)
+  have e2 : (v * m).tmod m = 0 := Int.mul_tmod_left _ _
+  have r : render m (v * m) = toString v := by
+    unfold render
+    simp only [e1, e2]
+    simp
+  refine ⟨r, ?_⟩
+  unfold renderSign
+  rw [r]
+  have : (v * m ≥ 0) ↔ 0 ≤ v := by
+    constructor
+    · intro h; by_contra hn; have : v * m < 0 := Int.mul_neg_of_neg_of_pos (by omega) hm; omega
+    · intro h; exact Int.mul_nonneg h (by omega)
+  simp only [this]
+
+/-- `Fraction.String` / `StringWithSign` (both types): the text of the numerator of the NORMALISED fraction, then `/` and
+    the text of its denominator unless that is 1 — in particular a zero denominator prints as the numerator 0 alone and
+    a negative one moves its sign to the numerator (the digit-level text of a single value is the subject of C04) -/
+theorem fraction_string_spec (m n d : Int) (hm : Mult m) (sign : Bool) :
+    (fits64 (-(n * m)) → fits64 (-(d * m)) →
+      F64.fracString sign m n d =
+        let p : Int × Int := if d = 0 then (0, m) else if d < 0 then (-n, -d) else (n, d)
+        (if sign then renderSign m p.1 else render m p.1) ++ (if p.2 = m then "" else "/" ++ render m p.2)) ∧
+    (fits128 (-(n * m)) → fits128 (-(d * m)) →
+      F128.fracString sign m n d =
+        let p : Int × Int := if d = 0 then (0, m) else if d < 0 then (-n, -d) else (n, d)
+        (if sign then renderSign m p.1 else render m p.1) ++ (if p.2 = m then "" else "/" ++ render m p.2)) := by
+  constructor
+  · intro hn hd
+    unfold F64.fracString
+    rw [F64.fracNormalize_eq hm hn hd, F64.fromInt_one hm]
+    simp only []
+    generalize (if d = 0 then ((0 : Int), m) else if d < 0 then (-n, -d) else (n, d)) = p
+    by_cases h : p.2 = m
+    · simp [h]
+    · simp [h, String.append_assoc]
+  · intro hn hd
+    unfold F128.fracString
+    rw [F128.fracNormalize_eq hm hn hd, F128.fromInt_one hm]
+    simp only []
+    generalize (if d = 0 then ((0 : Int), m) else if d < 0 then (-n, -d) else (n, d)) = p
+    by_cases h : p.2 = m
+    · simp [h]
+    · simp [h, String.append_assoc]
+
+/-- `NewFraction`: without a slash the denominator is 1 (raw `m`); with one, the two parsed values are kept as given
+    (normalisation happens in `Normalize` / `Value` / `String`, not here) -/
+theorem fraction_new_spec (m n : Int) (hm : Mult m) :
+    F64.fracNew m n none = (n, m) ∧ F128.fracNew m n none = (n, m) ∧
+    (∀ d, F64.fracNew m n (some d) = (n, d) ∧ F128.fracNew m n (some d) = (n, d)) := by
+  refine ⟨?_, ?_, fun d => ⟨rfl, rfl⟩⟩
+  · unfold F64.fracNew; simp only [F64.fromInt_one hm]
+  · unfold F128.fracNew; simp only [F128.fromInt_one hm]
+
+/-! ## f64 and f128 agree, continued: integer From / As, Fraction -/
+
+/-- integer `From`: both implementations return the exact raw value `v·m`, hence the same one, for every source kind
+    whenever the result fits 64 bits -/
+theorem f64_f128_agree_from_int (m v : Int) (hm : Mult m) (k : Kind) (hk : k ∈ kinds) (hv : fits64 v)
+    (hkv : fitsKind k v) (hp : fits64 (v * m)) :
+    F64.fromInt m v = F128.fromInt k m v ∧ F64.fromInt m v = v * m := by
+  rw [F64.fromInt_eq hv hp, F128.fromInt_eq hk hm hkv]; exact ⟨rfl, rfl⟩
+
+/-- integer `As`: the same answer for EVERY common raw value and every target kind — also when the integer part does
+    not fit the target kind and Go's conversion wraps (no `fitsKind` hypothesis) -/
+theorem f64_f128_agree_as_int (m a : Int) (hm : Mult m) (k : Kind) (ha : fits64 a) :
+    F64.asInt k m a = F128.asInt k m a := by
+  unfold F64.asInt F128.asInt F64.quo
+  rw [F128.quo_mult hm (fits128_of_fits64 ha), wrap64_of_fits (fits64_tdiv ha hm.pos),
+    F128.asInt64_of_fits (fits64_tdiv ha hm.pos)]
+
+/-- `Fraction.Normalize` / `Fraction.Value`: the same pair and the same value from both implementations when
+    numerator, denominator, their negations scaled, the intermediate and the result fit 64 bits -/
+theorem f64_f128_agree_fraction (m n d : Int) (hm : Mult m) (hn : fits64 (-(n * m))) (hd : fits64 (-(d * m)))
+    (hdf : fits64 d) (hp : fits64 (n * m)) (hq : fits64 ((n * m).tdiv d)) :
+    F64.fracNormalize m n d = F128.fracNormalize m n d ∧ F64.fracValue m n d = F128.fracValue m n d := by
+  have hm0 := hm.pos
+  have hdn : fits64 (-d) := by unfold fits64 at *; constructor <;> nlinarith
+  rw [f64_fraction_value m n d hm hn hd hp hq,
+    f128_fraction_value m n d hm (fits128_of_fits64 hn) (fits128_of_fits64 hd) (fits128_of_fits64 hdf)
+      (fits128_of_fits64 hdn) (fits128_of_fits64 hp) (fits128_of_fits64 hq),
+    F64.fracNormalize_eq hm hn hd, F128.fracNormalize_eq hm (fits128_of_fits64 hn) (fits128_of_fits64 hd)]
+  exact ⟨rfl, rfl⟩
+
 /-! ## From / As for floats (float64 kinds)
 
 The float paths are modelled in `Model/FixedFloat.lean` on the binary64 model `GoSem.F64` (every operation = the exact
@@ -407,6 +499,92 @@ theorem float_conversions_within_property_bound (m : Int) (hm : Mult m) :
   · exact le_trans (f64_as_float_bound m a hm ha).2 (le_trans (mono _) (le_max_right _ _))
   · exact le_trans (f128_as_float_bound m a hm ha).2.2 (le_max_right _ _)
 
+/-! ## From / As for floats (float32 kinds)
+
+A float32 is carried in the binary64 model as the datum of the same value (`Fixed.round32`, `Fixed.decode32`); the area
+`fxfloatm` compares these paths bit for bit as well.  `IsF32 x`: `x` is a value of the float32 grid. -/
+
+/-- f64 `As` to float32 (`ParseFloat(f.String(), 32)`): finite for every raw value, a float32 value, and within one
+    part in 2^24 of the value (half a unit in the last place of a float32) -/
+theorem f64_as_float32_bound (m a : Int) (hm : Mult m) (ha : fits64 a) :
+    (∃ s mm e, F64.asFloat32 m a = .fin s mm e) ∧ IsF32 |fval (F64.asFloat32 m a)| ∧
+      |fval (F64.asFloat32 m a) - value m a| ≤ |value m a| / 2 ^ 24 := by
+  obtain ⟨s, mm, e, h1, h2, h3⟩ := f64_as32_val m a hm ha
+  exact ⟨⟨s, mm, e, h1⟩, h2, h3⟩
+
+/-- f128 `As` to float32 (`float32(f64)` of the float64 result: three roundings): finite for every raw value, a float32
+    value, and within `2^-24 + 2^-52` (relative) of the value, hence within one part in 2^23 (one unit in the last place
+    of a float32, the reading of the property's relative bound for the float32 kinds) -/
+theorem f128_as_float32_bound (m a : Int) (hm : Mult m) (ha : fits128 a) :
+    (∃ s mm e, F128.asFloat32 m a = .fin s mm e) ∧ IsF32 |fval (F128.asFloat32 m a)| ∧
+      |fval (F128.asFloat32 m a) - value m a| ≤ |value m a| * (1 / 2 ^ 24 + 1 / 2 ^ 52) ∧
+      |fval (F128.asFloat32 m a) - value m a| ≤ |value m a| / 2 ^ 23 := by
+  obtain ⟨s, mm, e, h1, h2, h3⟩ := f128_as32_val m a hm ha
+  refine ⟨⟨s, mm, e, h1⟩, h2, h3, le_trans h3 ?_⟩
+  have h0 : (0 : ℚ) ≤ |value m a| := abs_nonneg _
+  calc |value m a| * (1 / 2 ^ 24 + 1 / 2 ^ 52) ≤ |value m a| * (1 / 2 ^ 23) :=
+        mul_le_mul_of_nonneg_left (by norm_num) h0
+    _ = |value m a| / 2 ^ 23 := by ring
+
+/-- f128 `From` of a float32 (the argument is converted exactly to float64 first, so the float64 bound applies to the
+    decoded float32): less than one unit of the last place from the value, when not saturated -/
+theorem f128_from_float32_bound (p : Nat × Int) (hp : p ∈ Facts.fixedConfigs) (n : Nat) (r : Int)
+    (h : F128.fromFloat p.2 p.1 (decode32 n) = some r) (h1 : F128.minRaw < r) (h2 : r < F128.maxRaw) :
+    |value p.2 r - fval (decode32 n)| < 1 / (p.2 : ℚ) :=
+  (f128_from_float_bound p hp (decode32 n) r h h1 h2).2
+
+/-- `float32(Multiplier[T]())`, the second factor of the float32 `From`: a positive finite float within
+    `15/16 · 2^-25` (relative) of the multiplier in every configuration — exact up to D10, inexact from D11 on, where
+    `10^D` has more than 24 significant bits (checked on the regenerated table) -/
+theorem float32_multiplier (m : Int) (hm : Mult m) :
+    ∃ mm me, round32 (decide (m < 0)) m.natAbs 1 = .fin false mm me ∧ mm ≠ 0 ∧
+      |(mm : ℚ) * (2 : ℚ) ^ me - (m : ℚ)| ≤ (m : ℚ) * (15 / 2 ^ 29) := mult32_val m hm
+
+/-- f64 `From` of a float32 (`Int[T](value * float32(Multiplier[T]()))`, the product formed in float32), sharp form.
+    Hypothesis = domain, as for float64 (`.ok r`: the rounded product truncates into int64).  Two roundings to 24 bits
+    (of the multiplier, then of the product) and a truncation: the raw result is less than one raw unit from `x · mult`,
+    or — when the product is an integer of the float32 grid, so nothing is truncated — within one part in 2^23 of it.
+    (The first alternative needs that the grid of the float32 product contains the integers and that the error of
+    `float32(mult)` stays below half a grid unit: `float32_multiplier`.) -/
+theorem f64_from_float32_sharp (m : Int) (hm : Mult m) (x : Flt) (r : Int) (h : F64.fromFloat32 m x = .ok r) :
+    |(r : ℚ) - fval x * m| < 1 ∨ |(r : ℚ) - fval x * m| ≤ |fval x * m| / 2 ^ 23 :=
+  f64_from32_val m hm x r h
+
+/-- f64 `From` of a float32: off by at most one unit of the last decimal place or one part in 2^23 of the value (one
+    unit in the last place of a float32), whichever is larger -/
+theorem f64_from_float32_bound (m : Int) (hm : Mult m) (x : Flt) (r : Int) (h : F64.fromFloat32 m x = .ok r) :
+    |value m r - fval x| ≤ max (1 / (m : ℚ)) (|fval x| / 2 ^ 23) := by
+  have hmq : (0 : ℚ) < (m : ℚ) := by exact_mod_cast hm.pos
+  have e : value m r - fval x = ((r : ℚ) - fval x * m) / m := by unfold value; field_simp
+  rw [e, abs_div, abs_of_pos hmq]
+  rcases f64_from32_val m hm x r h with h1 | h1
+  · exact le_trans (div_le_div_of_nonneg_right (le_of_lt h1) (le_of_lt hmq)) (le_max_left _ _)
+  · refine le_trans (div_le_div_of_nonneg_right h1 (le_of_lt hmq)) (le_trans (le_of_eq ?_) (le_max_right _ _))
+    rw [abs_mul, abs_of_pos hmq]; field_simp
+
+/-- the domain hypothesis of `f64_from_float32_sharp` is not vacuous in general: every finite float with
+    `|x|·mult ≤ 2^62` is inside it -/
+theorem f64_from_float32_defined (m : Int) (hm : Mult m) (s : Bool) (mx : Nat) (ex : Int)
+    (hb : |fval (.fin s mx ex)| * m ≤ 2 ^ 62) : ∃ r, F64.fromFloat32 m (.fin s mx ex) = .ok r := by
+  apply f64_from32_defined m hm s mx ex
+  have h0 : (0 : ℚ) ≤ (mx : ℚ) * (2 : ℚ) ^ ex := mul_nonneg (Nat.cast_nonneg _) (le_of_lt (zp_pos ex))
+  have e : |fval (.fin s mx ex)| = (mx : ℚ) * (2 : ℚ) ^ ex := by
+    unfold fval; rw [abs_sgn_mul, abs_of_nonneg h0]
+  rw [e] at hb; exact hb
+
+/-- the bound of the property for every float32 conversion of both types, with the relative part read as 2^-23 (a
+    float32 has 24 significant bits): max(one unit of the last place, one part in 2^23); f128 `From` of a float32 is
+    `f128_from_float32_bound` (less than one unit) -/
+theorem float32_conversions_within_property_bound (m : Int) (hm : Mult m) :
+    (∀ x r, F64.fromFloat32 m x = .ok r → |value m r - fval x| ≤ max (1 / (m : ℚ)) (|fval x| / 2 ^ 23)) ∧
+    (∀ a, fits64 a → |fval (F64.asFloat32 m a) - value m a| ≤ max (1 / (m : ℚ)) (|value m a| / 2 ^ 23)) ∧
+    (∀ a, fits128 a → |fval (F128.asFloat32 m a) - value m a| ≤ max (1 / (m : ℚ)) (|value m a| / 2 ^ 23)) := by
+  have mono : ∀ v : ℚ, |v| / 2 ^ 24 ≤ |v| / 2 ^ 23 := fun v =>
+    div_le_div_of_nonneg_left (abs_nonneg v) (by norm_num) (by norm_num)
+  refine ⟨fun x r h => f64_from_float32_bound m hm x r h, fun a ha => ?_, fun a ha => ?_⟩
+  · exact le_trans (f64_as_float32_bound m a hm ha).2.2 (le_trans (mono _) (le_max_right _ _))
+  · exact le_trans (f128_as_float32_bound m a hm ha).2.2.2 (le_max_right _ _)
+
 /-! ## MaxSafeMultiply -/
 
 /-- f64 `MaxSafeMultiply` is `Max / mult`, and every value up to it (in magnitude) can be scaled by the multiplier
@@ -501,6 +679,65 @@ theorem from_int_rational (m v : Int) (hm : Mult m) :
   · intro hv hp; rw [F64.fromInt_eq hv hp]; unfold value; push_cast; field_simp
   · intro k hk hv; rw [F128.fromInt_eq hk hm hv]; unfold value; push_cast; field_simp
 
+/-! ## CONTRAST: the hypotheses are needed, and the code without the mechanism violates the clause
+
+`Fixed.Contrast.*` (Lemmas/FixedContrast.lean) transcribes, on the same machine-integer semantics, the bodies the
+functions had before the `fix:` commits of `/repo` (the reverse patches `seeded/revert-c03-*`) and one-token variants
+of the present bodies.  Each theorem exhibits operands inside the hypotheses of the property on which the variant
+breaks the clause while the function the driver runs meets it. -/
+
+/-- the intermediate-product hypothesis of `Mul` cannot be dropped for f64: operands and exact result fit 64 bits, the
+    product does not, and f64 returns a wrong number where f128 (whose 128-bit product fits) returns the exact one -/
+theorem mul_intermediate_hypothesis_needed :
+    ∃ m a b, Mult m ∧ fits64 a ∧ fits64 b ∧ fits64 ((a * b).tdiv m) ∧ ¬ fits64 (a * b) ∧
+      F64.mul m a b ≠ (a * b).tdiv m ∧ F128.mul m a b = (a * b).tdiv m :=
+  ⟨100, 10 ^ 12, 10 ^ 8, ⟨(2, 100), by decide, rfl⟩, by decide, by decide, by decide, by decide, by decide, by decide⟩
+
+/-- `Round` with the negative half tested strictly (the code before "Round: halves away from zero for negative values")
+    sends −1.5 to −1: at distance exactly one half, toward zero — against `f64_round_spec`; both real `Round`s send it
+    to −2 -/
+theorem contrast_round_strict_half :
+    ∃ m a, Mult m ∧ fits64 a ∧ fits64 (fxRound m a) ∧ roundStrict128 m a = roundStrict64 m a ∧
+      2 * |a - roundStrict64 m a| = m ∧ ¬ |a| < |roundStrict64 m a| ∧
+      |a| < |F64.round m a| ∧ |a| < |F128.round m a| :=
+  ⟨100, -150, ⟨(2, 100), by decide, rfl⟩, by decide, by decide, by decide, by decide, by decide, by decide, by decide⟩
+
+/-- `Ceil` without the sign test sends −1.5 to 0 — not below `a + 1`, against `f64_ceil_spec` -/
+theorem contrast_ceil_without_sign_test :
+    ∃ m a, Mult m ∧ fits64 a ∧ fits64 (fxCeil m a) ∧ ¬ ceilNoSign64 m a < a + m ∧ F64.ceil m a < a + m :=
+  ⟨100, -150, ⟨(2, 100), by decide, rfl⟩, by decide, by decide, by decide, by decide⟩
+
+/-- f64 `From` with the product formed in the source type (the code before "From multiplies in int64"): `From(int8(2))`
+    at D2 is raw −56 instead of 200 — against `f64_from_int_exact` -/
+theorem contrast_from_in_source_type :
+    ∃ k ∈ kinds, ∃ m v, Mult m ∧ fits64 v ∧ fitsKind k v ∧ fits64 (v * m) ∧
+      fromIntInSource64 k m v ≠ v * m ∧ F64.fromInt m v = v * m :=
+  ⟨⟨8, true⟩, by decide, 100, 2, ⟨(2, 100), by decide, rfl⟩, by decide, by simp [fitsKind], by decide, by decide,
+    by decide⟩
+
+/-- f128 `From` without the unsigned case (every integer through `int64`): `From(uint64(2^63))` is negative — against
+    `f128_from_int_exact` -/
+theorem contrast_f128_from_without_unsigned_case :
+    ∃ k ∈ kinds, ∃ m v, Mult m ∧ fitsKind k v ∧ fromIntSignedOnly128 m v ≠ v * m ∧ F128.fromInt k m v = v * m :=
+  ⟨⟨64, false⟩, by decide, 100, 2 ^ 63, ⟨(2, 100), by decide, rfl⟩, by simp [fitsKind], by decide, by decide⟩
+
+/-- `Mod` through `Mul`, `Div` and `Trunc` (the code before "Mod computes the remainder directly") is wrong as soon as
+    `a·10^D` does not fit, although operands and result do: `10^16 mod 3` (D2, f64) and `10^36 mod 7` (D2, f128) —
+    against `f64_mod_spec` / `f128_mod_spec` -/
+theorem contrast_mod_via_div :
+    (∃ m a b, Mult m ∧ fits64 a ∧ fits64 b ∧ b ≠ 0 ∧ modViaDiv64 m a b ≠ some (a - b * a.tdiv b) ∧
+      F64.mod m a b = some (a - b * a.tdiv b)) ∧
+    (∃ m a b, Mult m ∧ fits128 a ∧ fits128 b ∧ b ≠ 0 ∧ modViaDiv128 m a b ≠ some (a - b * a.tdiv b) ∧
+      F128.mod m a b = some (a - b * a.tdiv b)) :=
+  ⟨⟨100, 10 ^ 18, 300, ⟨(2, 100), by decide, rfl⟩, by decide, by decide, by decide, by decide, by decide⟩,
+   ⟨100, 10 ^ 38, 700, ⟨(2, 100), by decide, rfl⟩, by decide, by decide, by decide, by decide, by decide⟩⟩
+
+/-- `Mul` that scales down before multiplying (`f / mult * value`, no intermediate overflow) loses the fraction digits of
+    the first factor: 1.5 · 2 = 2 — against `f64_mul_spec` -/
+theorem contrast_mul_scale_first :
+    ∃ m a b, Mult m ∧ fits64 (a * b) ∧ mulScaleFirst64 m a b ≠ (a * b).tdiv m ∧ F64.mul m a b = (a * b).tdiv m :=
+  ⟨100, 150, 200, ⟨(2, 100), by decide, rfl⟩, by decide, by decide, by decide⟩
+
 /-! ## the hypotheses are satisfiable (non-vacuity) -/
 
 example : Mult 100 := ⟨(2, 100), by decide, rfl⟩
@@ -516,5 +753,20 @@ example : F64.fromFloat 100 (GoSem.F64.decode 0x3fd28f5c28f5c28f) = .ok 28 ∧
     F128.fromFloat 100 2 (GoSem.F64.decode 0x3fd28f5c28f5c28f) = some 29 := by decide
 example : (F64.asFloat 100 29).toBits = 0x3fd28f5c28f5c28f ∧ (F128.asFloat 100 29).toBits = 0x3fd28f5c28f5c28f := by
   decide
+
+/-- the float32 paths on the same value: 0.29 as a float32 is 3e947ae1 from both types, and converts back to raw 29 -/
+example : encode32 (F64.asFloat32 100 29) = 0x3e947ae1 ∧ encode32 (F128.asFloat32 100 29) = 0x3e947ae1 ∧
+    F128.fromFloat 100 2 (decode32 0x3e947ae1) = some 29 := by decide
+
+/-- f64 `From` of a float32 where `float32(mult)` is inexact: at D11 the second factor is 99999997952, and 0.29f (bits
+    3e947ae1) becomes raw 28999999488 (the exact product is 28999999165.53…; the difference 322.47 is below the
+    relative bound 28999999165.53 / 2^23 = 3457.07) -/
+example : GoSem.F64.truncInt (round32 false (10 ^ 11) 1) = 99999997952 ∧
+    F64.fromFloat32 (10 ^ 11) (decode32 0x3e947ae1) = .ok 28999999488 ∧
+    F64.fromFloat32 100 (decode32 0x3e947ae1) = .ok 29 := by decide
+
+/-- Fraction text on concrete values: −4 in the denominator moves its sign, a zero denominator prints 0 -/
+example : F64.fracString false 100 150 (-400) = "-1.5/4" ∧ F128.fracString true 100 150 0 = "+0" ∧
+    F64.fracString true 100 300 100 = "+3" ∧ render 100 (-50) = "-0.5" := by decide
 
 end C03
